@@ -389,6 +389,19 @@ StepHang ==
   /\ viol' = viol \cup {Tag("C10", "queries issued during an insertion never returned")}
   /\ UNCHANGED <<log, hmap, hroot, hyps, hmaps, reopened, dumps, nacked, lost, nst, blist>>
 
+(* a clean stop completed while a query of that node was still reading its store *)
+StepStopEarly ==
+  /\ Ev.a = "stopearly"
+  /\ viol' = viol \cup {Tag("C08", "shutdown completed while a query was still reading the store [node " \o ToString(Ev.n) \o "]")}
+  /\ UNCHANGED <<nst, log, hmap, hroot, hyps, hmaps, reopened, dumps, nacked, lost, blist>>
+
+(* the node's disk was replaced while it was down: it comes back as a node that holds nothing *)
+StepWipe ==
+  /\ Ev.a = "wipe"
+  /\ nst' = [nst EXCEPT ![Ev.n] = N0]
+  /\ viol' = viol \cup (IF nst[Ev.n].up THEN {Tag("D09", "wipe of a running node (driver error)")} ELSE {})
+  /\ UNCHANGED <<log, hmap, hroot, hyps, hmaps, reopened, dumps, nacked, lost, blist>>
+
 (* the restore scenario names the node that is being brought up to date by state transfer: whatever
    goes wrong on it afterwards is (also) a failure of C09, whether or not a transfer took place *)
 StepRejoin ==
@@ -415,7 +428,7 @@ CNext ==
   /\ l <= Len(Trace)
   /\ l' = l + 1
   /\ (StepPBegin \/ StepIndexReset \/ StepPEnd \/ StepAck \/ StepAckBig \/ StepBoot \/ StepKill \/ StepExit \/ StepStart \/ StepStop \/ StepLoad \/ StepDump
-      \/ StepNMember \/ StepNIncr \/ StepRejoin \/ StepBackup \/ StepDelBackup \/ StepRestoreBackup \/ StepBStart \/ StepBAdd \/ StepBStop \/ StepHang \/ StepCReset \/ StepCInfo)
+      \/ StepNMember \/ StepNIncr \/ StepRejoin \/ StepWipe \/ StepStopEarly \/ StepBackup \/ StepDelBackup \/ StepRestoreBackup \/ StepBStart \/ StepBAdd \/ StepBStop \/ StepHang \/ StepCReset \/ StepCInfo)
 
 CSpec == CInit /\ [][CNext]_cvars
 =============================================================================
